@@ -507,8 +507,15 @@ func c10RandomIPExt(rng *rand.Rand) []byte {
 		addrs = append(addrs, bitstr()...)
 	}
 	fam := []byte{0, 1, 1}
-	if rng.Intn(5) == 0 {
+	switch rng.Intn(10) {
+	case 0, 1:
 		fam = []byte{0, byte(rng.Intn(4))}
+	case 2:
+		fam = []byte{} // truncated address family
+	case 3:
+		fam = []byte{byte(rng.Intn(2))}
+	case 4:
+		fam = []byte{0, 1, 1, byte(rng.Intn(256))}
 	}
 	famTLV := append([]byte{0x04, byte(len(fam))}, fam...)
 	seqAddrs := append([]byte{0x30, byte(len(addrs))}, addrs...)
